@@ -422,9 +422,10 @@ void search_enumerate(const std::function<void(const std::vector<uint64_t> &)> &
 }
 
 // generated longer ranges of doubles with clustered values
+template<int MAXN>
 void c20_search_long(vf::Tape & t, vf::Ctx & ctx)
 {
-  const size_t n = static_cast<size_t>(t.choice(5) == 0 ? t.choice(2001) : t.choice(40));
+  const size_t n = static_cast<size_t>(t.choice(5) == 0 ? t.choice(MAXN + 1) : t.choice(40));
   std::vector<double> r;
   double x = t.sym(100.0);
   const auto mode = t.choice(3);
@@ -514,7 +515,8 @@ struct Reg
     reg_misc(std::make_index_sequence<10>{});
     vf::registry().push_back({"c20.integrate_absolute_polynomial", 16, &c20_absint, 6.0, "quadratic with two roots inside the interval", {}});
     vf::registry().push_back({"c20.binary_interval_search.exhaustive", 2, &c20_search_small, 1.0, "range with repeated values (all sorted ranges <= 8 over {0..4} x 13 queries)", &search_enumerate});
-    vf::registry().push_back({"c20.binary_interval_search.long", 6100, &c20_search_long, 3.0, "range of >= 3 values with repeats", {}});
+    vf::registry().push_back({"c20.binary_interval_search.medium", 260, &c20_search_long<80>, 3.0, "range of >= 3 values with repeats", {}});
+    vf::registry().push_back({"c20.binary_interval_search.long", 6100, &c20_search_long<2000>, 0.15, "range of >= 3 values with repeats", {}});
 #endif
   }
 } reg;
